@@ -799,7 +799,10 @@ fn painted_prefix(state: State, config: &config::Config) -> Option<ANSIString> {
         }
         // But otherwise we honor keep_plus_minus_markers
         (HunkMinus(_, _), true) => Some(config.minus_style.paint("-".to_string())),
-        (HunkZero(_, _), true) => Some(config.zero_style.paint(" ".to_string())),
+        // (the lines of a word diff have no marker column)
+        (HunkZero(_, _), true) if !crate::handlers::hunk::is_word_diff() => {
+            Some(config.zero_style.paint(" ".to_string()))
+        }
         (HunkPlus(_, _), true) => Some(config.plus_style.paint("+".to_string())),
         _ => None,
     }
